@@ -91,6 +91,15 @@ def proj(deps):
     return out
 
 
+def _rendered(t, g, H):
+    """render()'s dependency list; for one case in three the tree sits inside the expansion of a tagifiable component
+    (one more nesting level: what render() reports is collected after the expansion)."""
+    if g.get("wrap"):
+        from .. import gamma
+        return H.tags.div("w", gamma.Tfy(lambda: t)).render()["dependencies"]
+    return t.render()["dependencies"]
+
+
 class C10(Prop):
     id = "C10"
     trace_module = "DepTrace"
@@ -145,7 +154,7 @@ class C10(Prop):
                 ver = [rnd.choice([0, 1, 2, 9, 10, 11]) for _ in range(rnd.randint(1, 4))]
                 deps.append({"name": rnd.choice(names), "ver": ver, "pl": rnd.choice("pqr")})
             gens.append({"kind": "resolve", "tree": place(deps, rnd), "alias": rnd.random() < 0.4, "doc": rnd.random() < 0.4,
-                         "display": rnd.random() < 0.25})
+                         "display": rnd.random() < 0.25, "wrap": rnd.random() < 0.33})
         for _ in range(200 if tier == "quick" else 4000):
             deps = [{"name": rnd.choice("ab"), "ver": rnd.choice([[1, 10], [1, 10, 0], [1, 9], [2]]), "pl": rnd.choice("pq")}
                     for _ in range(rnd.randint(2, 6))]
@@ -164,7 +173,7 @@ class C10(Prop):
                 return {"k": "resolve", "tree": g["tree"], "got": proj(got), "gotDoc": proj(got), "gotDocGrown": proj(got), "fragSame": True,
                         "gotNoDedup": proj(t.get_dependencies(dedup=False)),
                         "gotTagifiedNoDedup": proj(t.tagify().get_dependencies(dedup=False)),
-                        "gotRender": proj(t.render()["dependencies"]),
+                        "gotRender": proj(_rendered(t, g, H)),
                         "gotTwice": proj(H.TagList(*got).get_dependencies()), "gen": g}
             top = [build(c, H, {} if g.get("alias") else None) for c in g["tree"]["c"]]
             tag_idx = [j for j, c in enumerate(g["tree"]["c"]) if c["k"] == "t"]
@@ -192,7 +201,7 @@ class C10(Prop):
             return {"k": "resolve", "tree": g["tree"], "got": proj(got), "gotDoc": proj(got_doc), "gotDocGrown": proj(got_grown), "fragSame": bool(frag_same),
                     "gotNoDedup": proj(t.get_dependencies(dedup=False)),
                     "gotTagifiedNoDedup": proj(t.tagify().get_dependencies(dedup=False)),
-                    "gotRender": proj(t.render()["dependencies"]),
+                    "gotRender": proj(_rendered(t, g, H)),
                     "gotTwice": proj(H.TagList(*got).get_dependencies()), "gen": g}
         if g["kind"] == "remove":
             # a flat list of dependencies from which ONE object is taken out again (list.remove / del by index of that
